@@ -212,6 +212,8 @@ def gen_syn(t, allow_m=True, max_pts=600, hostile=False, force_m=False, omen=Non
     if has_m or t.chance(1, 4):
         lv = sorted({t.between(0, 4) for _ in range(t.between(1, 3))})
         pp = _descending_probs(t, "dyadic" if pool == "tiny" else pool, len(lv))
+        if len(pp) >= 2 and t.chance(1, 6):
+            pp[1] = pp[0]               # two Markov levels of exactly equal probability form one group
         spec["omen_prob"] = [[str(l), p] for l, p in zip(lv, pp)]
     return spec
 
@@ -255,6 +257,20 @@ DIRS = {"A": ("BASE_A", "Alpha"), "D": ("BASE_D", "Digits"), "O": ("BASE_O", "Ot
         "C": ("CAPITALIZATION", "Capitalization")}
 
 
+def _spell(p, j, mode):
+    """another decimal spelling of the same double for the j-th member of a group (mode set per world)"""
+    if not mode or j == 0:
+        return p
+    f = float(p)
+    cands = [p]
+    if "e" not in p.lower():
+        cands.append(p + "0")
+    cands.append("%.17e" % f)
+    cands.append(repr(f))
+    alt = cands[(j + mode) % len(cands)]
+    return alt if float(alt) == f else p
+
+
 def write_omen(omen, odir, keyspace=None, prob=None, encoding=None):
     enc = encoding or omen.get("encoding", "utf-8")
     _write(os.path.join(odir, "config.txt"),
@@ -280,7 +296,7 @@ def write_ruleset(spec, directory):
         sec, sub = DIRS[kind]
         fn = n + ".txt"
         files[kind].append(fn)
-        text = "".join("%s\t%s\n" % (v, p) for p, vals in groups for v in vals)
+        text = "".join("%s\t%s\n" % (v, _spell(p, j, spec.get("spell"))) for p, vals in groups for j, v in enumerate(vals))
         _write(os.path.join(directory, sub, fn), text, enc)
     for kind in ("X", "Y"):
         if "1.txt" not in files[kind]:
